@@ -85,6 +85,9 @@ def file_desc(draw, nested=False):
         # write one itself
         f['explicit_bom'] = draw(hs.integers(0, 3)) == 0
         f['cut_tail'] = draw(hs.sampled_from(range(12))) == 0
+        f['foreign_line'] = draw(hs.sampled_from(
+            [None, None, '\\ \\hline', '\\ server\\share\\x.txt',
+             'garbage', '\\garbage', '\tx', '\\ No newline at end']))
 
         if draw(hs.integers(0, 7)) == 0:
             # a long first line (before the first hunk)
@@ -283,6 +286,16 @@ def damage_bytes(f):
 
         if e is target[0]:
             lines.extend(hl[:1 + target[1]])
+
+            if f.get('foreign_line'):
+                # ... or rather: that line is replaced by one that is no
+                # context / insert / delete / marker line, and the diff
+                # goes on
+                lines.append(f['foreign_line'].encode('ascii'))
+                lines.extend(hl[2 + target[1]:])
+                lines.extend(e['after'])
+                continue
+
             break
 
         lines.extend(hl)
